@@ -24,6 +24,7 @@ type session struct {
 	cells map[vaxis.Cell]int
 	w, h  int
 	ew    bool
+	sixel bool // this history also places sixel-flagged cells
 }
 
 func capsMask(rgb, su, ew, sync, uc bool) uint32 {
@@ -91,9 +92,9 @@ func (s *session) grid() string {
 			if !ok {
 				id = len(s.cells)
 				s.cells[c] = id
-				s.r.Emit(fmt.Sprintf("cell %d %s %d %d %d %d %d %d %s %s", id, hx.Hex(c.Grapheme), c.Width,
+				s.r.Emit(fmt.Sprintf("cell %d %s %d %d %d %d %d %d %s %s %d", id, hx.Hex(c.Grapheme), c.Width,
 					uint32(c.Foreground), uint32(c.Background), uint32(c.UnderlineColor), c.UnderlineStyle, c.Attribute,
-					hx.Hex(c.Hyperlink), hx.Hex(c.HyperlinkParams)), "-")
+					hx.Hex(c.Hyperlink), hx.Hex(c.HyperlinkParams), b01(vaxis.VerifCellSixel(c))), "-")
 			}
 			ids = append(ids, fmt.Sprint(id))
 		}
@@ -223,7 +224,21 @@ func (s *session) randCell(styles []vaxis.Style) vaxis.Cell {
 func (s *session) drawOps(n int, styles []vaxis.Style) {
 	win := s.vx.Window()
 	for i := 0; i < n; i++ {
-		switch s.rng.Intn(12) {
+		k := s.rng.Intn(12)
+		if s.sixel && s.rng.Chance(1, 6) {
+			k = 12
+		}
+		switch k {
+		case 12:
+			// what Sixel.Draw does to the cells under an image (w x h block of sixel-flagged cells);
+			// later ops / Clear overwrite them = the image is dropped
+			x0, y0 := s.rng.Intn(s.w), s.rng.Intn(s.h)
+			for y := y0; y < y0+1+s.rng.Intn(2); y++ {
+				for x := x0; x < x0+1+s.rng.Intn(3); x++ {
+					win.SetCell(x, y, vaxis.VerifSixelCell())
+				}
+			}
+			s.r.Count("op-sixel-block")
 		case 0:
 			win.Clear()
 			s.r.Count("op-clear")
@@ -279,6 +294,10 @@ func history(r *hx.Run, rng *gen.Rng, id string, maxW, maxH, frames int) error {
 		return err
 	}
 	defer s.close()
+	s.sixel = rng.Chance(1, 4)
+	if s.sixel {
+		r.Count("history-with-sixel-cells")
+	}
 	styles := []vaxis.Style{{}}
 	for i := 0; i < 3; i++ {
 		styles = append(styles, randStyle(rng, r))
@@ -333,6 +352,7 @@ var corpusStyles = []vaxis.Style{{}, {Foreground: vaxis.IndexColor(1), Hyperlink
 //
 //	session <w> <h> <rgb> <su> <ew> <sync> <uc>     (0/1 each; first line)
 //	set <col> <row> <grapheme hex|-> <width> <style index>
+//	sixel <col> <row>                                (the cell Sixel.Draw puts under an image)
 //	clear | render | refresh
 //
 // The scenario lines are echoed into the stream (the driver ignores them) so that a replay file of
@@ -380,6 +400,12 @@ func corpus(r *hx.Run, rng *gen.Rng, id string, ops []string) error {
 			}
 			r.Emit(op, "-")
 			s.vx.Window().SetCell(col, row, vaxis.Cell{Character: vaxis.Character{Grapheme: g, Width: w}, Style: corpusStyles[si%len(corpusStyles)]})
+		case f[0] == "sixel" && len(f) == 3:
+			var col, row int
+			fmt.Sscan(f[1], &col)
+			fmt.Sscan(f[2], &row)
+			r.Emit(op, "-")
+			s.vx.Window().SetCell(col, row, vaxis.VerifSixelCell())
 		case f[0] == "clear":
 			r.Emit(op, "-")
 			s.vx.Window().Clear()
